@@ -96,6 +96,39 @@ package cert
 //@   ensures [cert] err == nil ==> cert.signature != nil && cert.blockHash == block.hash
 //@   modifies alloc
 
+// ---- assembling certificates: the certificate names exactly the block / view it was asked
+// for, and the signature it carries is what Base.Combine made of exactly the given partial
+// signatures, all of them, in order (asserted where Combine is called).
+//@ func (*Authority).CreateQuorumCert property C09,C02
+//@   requires c.Base != nil && block != nil && hotstuff.genesisBlock != nil
+//@   ghost at call Combine :: assert len(sigs) == len(signatures) && (forall k int :: {sigs[k]} 0 <= k && k < len(signatures) ==> sigs[k] == signatures[k].signature)
+//@   ensures [genesis] err == nil && block.hash == hotstuff.genesisBlock.hash ==> cert.view == 0 && cert.signature == nil && cert.hash == block.hash
+//@   ensures [names-the-block] err == nil && block.hash != hotstuff.genesisBlock.hash ==> cert.view == block.view && cert.hash == block.hash && cert.signature != nil
+//@   loop 0 invariant [all-in-order] len(sigs) == rangeindex + 1 && (cap(sigs) == 0 || fresh(sigs)) && (forall k int :: {sigs[k]} 0 <= k && k <= rangeindex ==> sigs[k] == signatures[k].signature)
+//@   modifies alloc
+
+//@ func (*Authority).CreateTimeoutCert property C08,C02
+//@   requires c.Base != nil
+//@   ghost at call Combine :: assert len(sigs) == len(timeouts) && (forall k int :: {sigs[k]} 0 <= k && k < len(timeouts) ==> sigs[k] == timeouts[k].ViewSignature)
+//@   ensures [view-zero] err == nil && view == 0 ==> cert.view == 0 && cert.signature == nil
+//@   ensures [names-the-view] err == nil && view != 0 ==> cert.view == view && cert.signature != nil
+//@   loop 0 invariant [all-in-order] len(sigs) == rangeindex + 1 && (cap(sigs) == 0 || fresh(sigs)) && (forall k int :: {sigs[k]} 0 <= k && k <= rangeindex ==> sigs[k] == timeouts[k].ViewSignature)
+//@   modifies alloc
+
+// The aggregate certificate carries, for every timeout with a QC, that QC under the sender's
+// id (senders pairwise distinct, as the collector guarantees: C08 P2), nothing else, and the
+// requested view.
+//@ func (*Authority).CreateAggregateQC property C08,C02
+//@   requires c.Base != nil
+//@   requires [distinct-senders] forall i int, j int :: {timeouts[i].ID, timeouts[j].ID} 0 <= i && i < j && j < len(timeouts) ==> timeouts[i].ID != timeouts[j].ID
+//@   ensures [names-the-view] err == nil ==> aggQC.view == view && aggQC.sig != nil && aggQC.qcs != nil
+//@   ensures [attested-qcs] err == nil ==> (forall k int :: {timeouts[k].ID} 0 <= k && k < len(timeouts) && timeouts[k].SyncInfo.qc != nil ==> has(aggQC.qcs, timeouts[k].ID) && aggQC.qcs[timeouts[k].ID] == *timeouts[k].SyncInfo.qc)
+//@   ensures [only-attested] err == nil ==> (forall id hotstuff.ID :: {has(aggQC.qcs, id)} has(aggQC.qcs, id) ==> (exists k int :: {timeouts[k].ID} 0 <= k && k < len(timeouts) && timeouts[k].ID == id && timeouts[k].SyncInfo.qc != nil))
+//@   loop 0 invariant [attested-qcs] qcs != nil && fresh(qcs) && (forall k int :: {timeouts[k].ID} 0 <= k && k <= rangeindex && timeouts[k].SyncInfo.qc != nil ==> has(qcs, timeouts[k].ID) && qcs[timeouts[k].ID] == *timeouts[k].SyncInfo.qc)
+//@   loop 0 invariant [only-attested] forall id hotstuff.ID :: {has(qcs, id)} has(qcs, id) ==> (exists k int :: {timeouts[k].ID} 0 <= k && k <= rangeindex && timeouts[k].ID == id && timeouts[k].SyncInfo.qc != nil)
+//@   loop 0 invariant [sigs] len(sigs) <= rangeindex + 1 && (cap(sigs) == 0 || fresh(sigs))
+//@   modifies alloc
+
 // ---- signature cache (C11). A cache key is the string
 //   vkeyc(sig, c) = sha256(c) . signers(sig) . bytes(sig)
 // (c: content of the message). kvalid(impl, k) is the ghost meaning of "k is in the cache":
